@@ -131,6 +131,75 @@ theorem loop_filtermap (m : Method) (filter : Frame → Bool) (hk : HandlerKind)
   funext f
   exact outcome_parsesAs parse hk f
 
+/-- the handlers swallow nothing but `malformed_packet` -/
+theorem caught_iff_malformed (hk : HandlerKind) (e : Exc) :
+    caughtBy (kindCatches hk) e = true ↔ e = .malformedPacket := by
+  cases hk <;> simp [kindCatches, caughtBy, safeAllocCatches, dot11Catches, Exc.ofName, eq_comm]
+
+theorem isEscape_eq_throwsOther (hk : HandlerKind) (f : Frame) :
+    (frameOutcome parse hk f).isEscape = throwsOther parse hk f := by
+  rw [frameOutcome_eq]
+  simp only [throwsOther]
+  cases hc : classOf hk f.data with
+  | none => rfl
+  | some cls =>
+    simp only
+    cases hp : parse cls f.data with
+    | ok p => rfl
+    | throw x =>
+      by_cases hx : x = .malformedPacket
+      · subst hx
+        have := (caught_iff_malformed hk .malformedPacket).mpr rfl
+        simp [allocOutcome, this, FOut.isEscape]
+      · have : caughtBy (kindCatches hk) x = false := by
+          cases h : caughtBy (kindCatches hk) x with
+          | false => rfl
+          | true => exact absurd ((caught_iff_malformed hk x).mp h) hx
+        simp [allocOutcome, this, FOut.isEscape, hx]
+
+/-- **loop_until_escape** (no assumption about the dissectors).  Draining a capture delivers exactly the
+    filtered, parsed frames that precede the first accepted frame on which a dissector throws something other than
+    `malformed_packet`; the iteration ends cleanly iff there is no such frame, and it never ends in a fault. -/
+theorem loop_until_escape (m : Method) (filter : Frame → Bool) (hk : HandlerKind)
+    (handler : Frame → SniffData P → HOut P) (hh : runHandler parse hk = some handler)
+    (frames : List Frame) (err : Bool) (hwf : ∀ f ∈ frames, f.data.length = f.caplen)
+    (fuel : Nat) (hfuel : frames.length + 1 ≤ fuel) :
+    (sniffAll m filter handler fuel ⟨frames, err⟩).1 =
+      expectedPackets parse hk filter (frames.takeWhile (fun f => !(filter f && throwsOther parse hk f))) ∧
+    ((sniffAll m filter handler fuel ⟨frames, err⟩).2.1 = .eof ↔
+      ∀ f ∈ frames, (filter f && throwsOther parse hk f) = false) ∧
+    (∀ i n, (sniffAll m filter handler fuel ⟨frames, err⟩).2.1 ≠ .fault i n) := by
+  have hb : ∀ f ∈ frames, Behaves handler (frameOutcome parse hk) f :=
+    fun f hf => handler_behaves parse hk handler hh f (hwf f hf)
+  have hs := sniffAll_spec m filter handler (frameOutcome parse hk) fuel frames err hb hfuel
+  have hpass : passes filter (frameOutcome parse hk) = fun f => !(filter f && throwsOther parse hk f) := by
+    funext f
+    simp only [passes, isEscape_eq_throwsOther]
+  obtain ⟨t1, t2, t3⟩ := specAll_takeWhile filter (frameOutcome parse hk) frames
+  rw [hpass] at t1 t2 t3
+  refine ⟨?_, ?_, fun i n => by rw [hs.2]; exact specAll_no_fault filter (frameOutcome parse hk) frames i n⟩
+  · rw [hs.1, t1]
+    have hgood : ∀ f ∈ frames.takeWhile (fun f => !(filter f && throwsOther parse hk f)),
+        filter f = true → ∀ e, frameOutcome parse hk f ≠ .escape e := by
+      intro f hf hflt
+      have hall := List.all_takeWhile (l := frames) (p := fun f => !(filter f && throwsOther parse hk f))
+      have := List.all_eq_true.mp hall f hf
+      simp only [hflt, Bool.true_and, Bool.not_eq_true'] at this
+      exact outcome_no_escape parse hk f this
+    rw [specAll_filterMap filter (frameOutcome parse hk) _ hgood]
+    simp only [expectedPackets]
+    congr 1
+    funext f
+    exact outcome_parsesAs parse hk f
+  · rw [hs.2, t3]
+    constructor
+    · intro h f hf
+      have := h f hf
+      cases hflt : filter f <;> simp_all
+    · intro h f hf
+      have := h f hf
+      cases hflt : filter f <;> simp_all
+
 /-- **loop_no_fault.**  Whatever the frames contain and whatever the dissectors do, no handler reads a byte outside
     the `caplen` captured ones (in particular not `bytes[0]` of an empty raw-IP frame, nor `ptr[12]` of a short
     Ethernet frame). -/
@@ -232,6 +301,12 @@ example : (sniffLoop .dispatch (fun _ => true) (handlerRaw demoParse) sniffLoopC
     ⟨demoFrames, false⟩ 1 []).2.1 = [(4, ⟨10000001⟩)] := by decide
 /-- an Ethernet frame shorter than 13 bytes is not inspected at offset 12 -/
 example : handlerEth demoParse ⟨⟨1, 1⟩, 2, 2, [0, 1]⟩ SniffData.init = .ret ⟨⟨1, 1⟩, none, true⟩ := rfl
+
+/-- the hypothesis of `loop_filtermap` / `loop_no_escape` cannot be dropped: the handlers catch nothing but
+    `malformed_packet`, so any other exception of a dissector leaves `next_packet` (through libpcap's C frames) -/
+example : (sniffAll .loop (fun _ => true)
+    (handlerRaw (fun _ _ => (POut.throw (.other "option_not_found") : POut Nat))) 3
+    ⟨[⟨⟨1, 1⟩, 1, 1, [0x45]⟩], false⟩).2.1 = .escape (.other "option_not_found") := by decide
 
 /-! ## the writer and the file -/
 
